@@ -97,6 +97,7 @@ def build(u):
     u.use('use std::sync::atomic::Ordering;')
     u.use('use vstd::utf8::*;')
     u.use('use vstd::string::StringSliceAdditionalSpecFns;')
+    u.prelude('shim_chars.rs')
     u.prelude('shim_sourceview.rs')
     # the struct, verbatim except R-stub-type (the two cells) / R-vis / R-attr
     for name, subs in [('SourceView', [(r'\bAtomicUsize\b', 'SeqAtomicUsize'), (r'\bMutex<', 'SeqMutex<')]),
@@ -112,6 +113,7 @@ def build(u):
         text, n = re.subn(r'(?m)^(\s+)(?:pub(?:\([a-z]+\))? )?([a-z_][a-z0-9_]*: )', r'\1pub \2', text)
         u.count('R-vis', n)
         u.emit_text('sourceview::' + name, text, origin)
+    u.spec('utf.rs')
     u.spec('sourceview.rs')
 
     def prep_new(f):
